@@ -1,3 +1,5 @@
 pub mod prog;
 pub mod soup;
 pub mod decl;
+pub mod c14_layout;
+pub mod c05_res;
